@@ -1153,3 +1153,111 @@ def rule_G_SELFDROP(ctx, repo):
                      '%s:%d' % (m.rel, st.lineno))
     if not n:
         ctx.note('G-VAL (self drop): _keygen drops no leading positional argument; nothing to check')
+    # G-FORMS (the specification is read against the signature, not against one call): the sets of ignored indices / names are computed from the
+    # specification and the function's parameter names.  The *number of arguments this call happens to pass positionally* must not enter them: a
+    # negative or relative index resolved with len(args) masks different parameters in f(1, 2, True), f(1, 2, verbose=True) and f(x=1, y=2, verbose=True).
+    counts = set()
+    for x in ast.walk(f):
+        if isinstance(x, ast.Assign) and len(x.targets) == 1 and isinstance(x.targets[0], ast.Name):
+            if any(isinstance(c, ast.Call) and isinstance(c.func, ast.Name) and c.func.id == 'len' and c.args and isinstance(c.args[0], ast.Name) and c.args[0].id in pos
+                   for c in ast.walk(x.value)):
+                counts.add(x.targets[0].id)
+    n2 = 0
+    for x in ast.walk(f):
+        if isinstance(x, (ast.Assign, ast.AugAssign)):
+            tg = x.targets[0] if isinstance(x, ast.Assign) else x.target
+            if isinstance(tg, ast.Tuple):
+                tg = next((e for e in tg.elts if isinstance(e, ast.Name) and e.id in spec_like and e.id != ign), tg)
+            if not (isinstance(tg, ast.Name) and tg.id in spec_like and tg.id != ign):
+                continue
+            n2 += 1
+            uses = [c for c in ast.walk(x.value) if (isinstance(c, ast.Call) and isinstance(c.func, ast.Name) and c.func.id == 'len' and c.args
+                                                     and isinstance(c.args[0], ast.Name) and c.args[0].id in pos) or (isinstance(c, ast.Name) and c.id in counts)]
+            ctx.ob('G-FORMS', '_keygen: `%s` does not depend on how many arguments the call passes positionally' % tg.id, not uses)
+            if uses:
+                ctx.fail('G-FORMS', fi.qual, 'ignore set `%s` computed from the number of positional arguments' % tg.id,
+                         '_keygen computes `%s` from `%s`: which parameters are masked then depends on how the caller spells the call (positionally or by keyword), '
+                         'so one and the same binding of values to parameters gets different keys - or an argument that should be ignored reaches the key'
+                         % (tg.id, unparse(uses[0])[:40]), '%s:%d' % (m.rel, x.lineno))
+    if n2 < 1:
+        ctx.note('G-FORMS (call-independent decomposition): the ignore sets are not assigned by name in _keygen (decomposed in a helper); nothing to check here')
+
+
+def rule_G_SELFTRUTH(ctx, repo):
+    """G-FORMS / V-SELF (the bound instance is a user object: never asked for its truth).  _keygen and signature() look at `__self__` to find out whether
+    the first positional argument is the instance a method is bound to.  The instance is whatever the user's class makes it: an empty container subclass
+    is falsy, `__bool__` / `__len__` are user code.  Wherever the package holds such an instance (a name bound from `.__self__` / getattr(x, '__self__'))
+    it compares it (`is None`, `==`) - it never branches on its truthiness, or methods of falsy instances are keyed / validated differently from the rest."""
+    m = repo.mod('_inspect')
+    n = 0
+    for fname, fi in sorted(m.functions.items()):
+        fn = fi.node
+
+        def reads_self(e):
+            for x in ast.walk(e):
+                if isinstance(x, ast.Attribute) and x.attr == '__self__':
+                    return True
+                if isinstance(x, ast.Call) and isinstance(x.func, ast.Name) and x.func.id == 'getattr' and len(x.args) >= 2 \
+                        and isinstance(x.args[1], ast.Constant) and x.args[1].value == '__self__':
+                    return True
+            return False
+        inst = set()
+        for x in ast.walk(fn):
+            if isinstance(x, ast.Assign) and len(x.targets) == 1 and isinstance(x.targets[0], ast.Name) and reads_self(x.value) \
+                    and not isinstance(x.value, (ast.Compare, ast.BoolOp)):
+                inst.add(x.targets[0].id)
+        hits = []
+        for nm in sorted(inst):
+            n += 1
+            hits.extend((h, nm) for h in truth_tests_of(fn, nm))
+        for node in ast.walk(fn):
+            tests = []
+            if isinstance(node, (ast.If, ast.IfExp, ast.While)):
+                tests.append(node.test)
+            elif isinstance(node, ast.BoolOp):
+                tests.extend(node.values)
+            elif isinstance(node, ast.UnaryOp) and isinstance(node.op, ast.Not):
+                tests.append(node.operand)
+            for t in tests:
+                if (isinstance(t, ast.Attribute) and t.attr == '__self__') or (isinstance(t, ast.Call) and reads_self(t) and isinstance(t.func, ast.Name) and t.func.id == 'getattr'):
+                    hits.append((t, unparse(t)))
+        ctx.ob('G-FORMS', '%s: the bound instance is never tested for truth (%d instance-valued names)' % (fname, len(inst)), not hits)
+        for h, nm in hits[:1]:
+            ctx.fail('G-FORMS', fi.qual, 'truthiness of the bound instance (%s)' % nm,
+                     '%s branches on the truth value of `%s`, which is the instance a method is bound to: for an instance that is falsy (an empty list / dict '
+                     'subclass, a class whose __bool__ or __len__ says so) the "first argument is self" case is not recognised - the ignored instance stays in the key '
+                     '(calls on equal-looking falsy instances are evaluated again) or the method is validated with a spurious parameter' % (fname, nm),
+                     '%s:%d' % (m.rel, h.lineno))
+    if n < 1:
+        ctx.note('G-FORMS (instance truth): no name of klepto/_inspect.py is bound from __self__ today beyond the comparisons already judged')
+
+
+def rule_V_PARTIALSHAPE(ctx, repo):
+    """V-TRYRESET (what counts as a partial).  signature() and validate() unwrap `func.func` only for objects that have all three of a functools.partial's
+    attributes - `.args`, `.keywords` and `.func` - each read plainly, so that a missing one aborts the probe.  With defaults (`getattr(func, 'args', ())`)
+    any callable instance that keeps a delegate in `self.func` is inspected as a partial of the delegate: its own `__call__` signature is ignored and the
+    positional, keyword and default-omitted spellings of one call are bound under different names."""
+    m = repo.mod('_inspect')
+    n = 0
+    for fname, fi in sorted(m.functions.items()):
+        fn = fi.node
+        if not fn.args.args:
+            continue
+        obj = fn.args.args[0].arg
+        unwraps = [x for x in ast.walk(fn) if isinstance(x, ast.Attribute) and x.attr == 'func' and isinstance(x.value, ast.Name) and x.value.id == obj and isinstance(x.ctx, ast.Load)]
+        if not unwraps:
+            continue
+        n += 1
+        plain = set(x.attr for x in ast.walk(fn) if isinstance(x, ast.Attribute) and isinstance(x.value, ast.Name) and x.value.id == obj and isinstance(x.ctx, ast.Load))
+        soft = [x for x in ast.walk(fn) if isinstance(x, ast.Call) and isinstance(x.func, ast.Name) and x.func.id == 'getattr' and len(x.args) == 3
+                and isinstance(x.args[0], ast.Name) and x.args[0].id == obj and isinstance(x.args[1], ast.Constant) and x.args[1].value in ('args', 'keywords', 'func')]
+        ok = 'args' in plain and 'keywords' in plain and not soft
+        ctx.ob('V-TRYRESET', '%s: an object is unwrapped as a partial only if .args, .keywords and .func are all there' % fname, ok)
+        if not ok:
+            what = ('reads %s with a default' % soft[0].args[1].value) if soft else 'does not read .args and .keywords of the object it unwraps'
+            ctx.fail('V-TRYRESET', fi.qual, 'partial recognised by .func alone',
+                     '%s unwraps `%s.func` but %s: a callable instance that merely stores a delegate in `.func` is then inspected as a partial of the delegate, '
+                     'its own __call__ signature is ignored, and one call spelled positionally / by keyword / with a default omitted is bound under different names'
+                     % (fname, obj, what), '%s:%d' % (m.rel, (soft or unwraps)[0].lineno))
+    if n < 1:
+        raise AnalysisError('V-TRYRESET (partial shape): no function of klepto/_inspect.py unwraps `.func` (signature / validate, or a helper they share, is an anchor)')
